@@ -192,6 +192,16 @@ class ScriptedApp:
                 err = await self._send(inst, send, op[1])
                 if err is not None and not (len(op) > 2 and op[2] == "tolerate"):
                     raise err
+            elif name == "echo":
+                # answer with what was received: "<path>|<body>"
+                while not inst.body_done and not inst.disconnected:
+                    await self._recv(inst, receive)
+                body = inst.scope.get("path", "").encode("utf-8") + b"|" + inst.body()
+                await self._send_or_raise(inst, send, {
+                    "type": "http.response.start", "status": 200,
+                    "headers": [["content-length", str(len(body))]]})
+                await self._send_or_raise(inst, send, {
+                    "type": "http.response.body", "body": {"$raw": body}, "more_body": False})
             elif name == "ws_loop":
                 # receive until the disconnect; optionally echo every message back
                 opts = op[1] if len(op) > 1 else {}
